@@ -28,6 +28,7 @@ unnoticed, and so that the two repairs the model anticipates flip the model auto
                         time.busy / time.idle to the presence of a timer)
   gen_on_record_atomic  fmt_subscriber.rs on_record takes `span.extensions_mut()` BEFORE it reads the stored fields and keeps
                         it until add_fields has stored the merged text (concurrent record calls on one span are serialised)
+  gen_add_fields_fresh  add_fields builds the merged text in a fresh String and assigns it only after finish() succeeded
   gen_escape_table      serde_json's ESCAPE table (src/ser.rs of the version in the repository's Cargo.lock, read from
                         the cargo registry): 256 entries, 0 = not escaped, else the letter after the backslash
                         (117 = 'u' for the backslash-u-00XX form); the model's escape_byte is proved equal to it
@@ -213,6 +214,12 @@ def main(repo, _out=None):
     afn_assign = "current.fields = new;" in afn
     if not afn_assign:
         unrec.append("add_fields: the merged text is not assigned in place (`current.fields = new`)")
+    # the merged text is built in a FRESH String and replaces the stored one only after finish() succeeded: nothing the
+    # visited values do (their Debug impls may unwind) can leave the stored text half-written or empty
+    i_new, i_vis, i_rec, i_fin = afn.find("let mut new = String::new();"), afn.find("JsonVisitor::new(&mut new)"), afn.find("fields.record(&mut v);", afn.find("JsonVisitor::new(&mut new)")), afn.find("v.finish()?; current.fields = new;")
+    add_fields_fresh = 0 <= i_new < i_vis < i_rec < i_fin and "current.fields.clear()" not in afn and "&mut current.fields" not in afn
+    if not add_fields_fresh:
+        unrec.append("add_fields: the merged text is not built in a fresh String that replaces the stored one after finish() (not atomic w.r.t. an unwinding Debug impl)")
 
     # ---- serde_json's escape table (the dependency the model's render_string mirrors)
     esc_table = []
@@ -298,6 +305,7 @@ def main(repo, _out=None):
         "Definition gen_timing_off_without_time : bool := %s." % b(timing_off),
         "Definition gen_metadata_normalised_under_log : bool := %s." % b(normalised),
         "Definition gen_on_record_atomic : bool := %s." % b(on_record_atomic and afn_assign),
+        "Definition gen_add_fields_fresh : bool := %s." % b(add_fields_fresh),
         "Definition gen_serde_json_version : string := %s." % coq_str(ver or ""),
         "Definition gen_escape_table : list nat := [%s]." % "; ".join(str(x) for x in esc_table),
         "Definition gen_json_unrecognised : list string := %s." % coq_strs(unrec),
